@@ -125,12 +125,12 @@ def slotOf (cmp : K → K → Int) (k : K) (x : Node K V) : Option (Nat × Nat) 
     match searchNode cmp k kvs with
     | (i, true) => some (id, i)
     | (i, false) =>
-      match h : kids[i]? with
+      match _h : kids[i]? with
       | none => none
       | some c => slotOf cmp k c
 termination_by sizeOf x
 decreasing_by
-  have := List.sizeOf_lt_of_mem (List.mem_of_getElem? h)
+  have := List.sizeOf_lt_of_mem (List.mem_of_getElem? _h)
   simp only [Node.mk.sizeOf_spec]
   omega
 
